@@ -49,6 +49,8 @@ class Part:
     def violate(self, key, msg, case):
         self.vkeys[key] = self.vkeys.get(key, 0) + 1
         if self.vkeys[key] <= 3 and len(self.violations) < 60:
+            if DEBUG_LOG[0] and isinstance(case, dict):
+                case = dict(case, _debug_log=True)      # environment of the shard, needed to replay
             self.violations.append({"key": key, "msg": msg, "case": case})
 
     def dump(self, path):
@@ -97,14 +99,45 @@ def match_known(known, pid, key):
 
 
 # ---- shard process ---------------------------------------------------------------------------------
+DEBUG_LOG = [False]
+
+
+class _FormatAndDrop(__import__("logging").Handler):
+    """What an application with debug logging switched on does to every record: format it (which evaluates the
+    arguments' __repr__/__str__).  The text is dropped; an exception raised while formatting is NOT swallowed."""
+
+    def emit(self, record):
+        record.getMessage()
+
+    def handleError(self, record):
+        raise
+
+
+def set_logging(debug: bool):
+    """Environment dimension 'log level': every second shard runs with the goodwe logger at DEBUG (as a user who
+    switched on debug logging would), the others with logging disabled."""
+    import logging
+    if debug:
+        logging.disable(logging.NOTSET)
+        lg = logging.getLogger("goodwe")
+        lg.setLevel(logging.DEBUG)
+        lg.propagate = False
+        if not any(isinstance(h, _FormatAndDrop) for h in lg.handlers):
+            lg.addHandler(_FormatAndDrop())
+        logging.getLogger("asyncio").setLevel(logging.CRITICAL + 1)
+        logging.raiseExceptions = True
+    else:
+        logging.disable(logging.CRITICAL)     # the library logs every retry / decode error; keep the shard's output small
+    DEBUG_LOG[0] = debug
+
+
 def shard_main(pid, spec_path, out_path):
     import faulthandler
     faulthandler.enable()
     wd = int(os.environ.get("VERIF_SHARD_WATCHDOG", "0"))
     if wd:
         faulthandler.dump_traceback_later(wd, exit=True)
-    import logging
-    logging.disable(logging.CRITICAL)     # the library logs every retry / decode error; keep the shard's output small
+    set_logging(os.environ.get("VERIF_DEBUG_LOG") == "1")
     env.ensure_deps()
     from . import reach
     reach.start()           # before goodwe is imported, so that import-time lines count as reached
@@ -141,7 +174,7 @@ def run_check(pid: str, tier: str) -> int:
             json.dump(spec, open(sp, "w"), default=_js)
             p = subprocess.Popen([sys.executable] + (["-X", "dev"] if getattr(mod, "DEV_MODE", False) else []) +
                                  [vcheck, "shard", pid, sp, op],
-                                 env=childenv, stdout=open(op + ".log", "w"), stderr=subprocess.STDOUT, text=True)
+                                 env=dict(childenv, VERIF_DEBUG_LOG=str((i + seed) % 2)), stdout=open(op + ".log", "w"), stderr=subprocess.STDOUT, text=True)
             running[i] = (p, op, time.time())
         for i, (p, op, st) in list(running.items()):
             rc_ = p.poll()
@@ -301,6 +334,7 @@ def replay_main(path: str) -> int:
     env.goodwe()
     rec = json.load(open(path))
     mod = load_check(rec["property"])
+    set_logging(isinstance(rec["case"], dict) and bool(rec["case"].get("_debug_log")))
     vs = mod.replay(rec["case"])
     print(f"replay of {path}: property={rec['property']} recorded key={rec['key']}")
     print(f"recorded: {rec['msg']}")
